@@ -380,7 +380,7 @@ impl LightClientProtocol {
                             self.storage.remove_matched_blocks(start_number);
                         }
                     }
-                    self.storage.rollback_to_block(1);
+                    self.storage.rollback_to_block_with_filtered_number(1, 0);
                     matched_blocks.clear();
                     None
                 } else {
@@ -470,7 +470,9 @@ impl LightClientProtocol {
                     }
                     let rollback_to = start_number_opt.unwrap_or(to_number) + 1;
                     info!("rollback to block#{}", rollback_to);
-                    self.storage.rollback_to_block(rollback_to);
+                    // the block `rollback_to` is removed: the scripts are filtered up to its parent
+                    self.storage
+                        .rollback_to_block_with_filtered_number(rollback_to, rollback_to - 1);
                     matched_blocks.clear();
                 } else {
                     warn!("long fork detected");
